@@ -190,6 +190,11 @@ func (g *gen) body(depth, n, self int) []byte {
 				// the same call once more: the callee runs again on what its first run left behind in this transaction
 				// (written slots, a self-destruct mark, warm addresses)
 				a.Call(kind, to, o)
+				if r.Intn(2) == 0 {
+					// ... and look at what the callee holds now (a callee that destroyed itself twice must hold nothing)
+					a.PushA(to).Op(asm.BALANCE)
+					g.storeTop(a)
+				}
 			}
 		case k < 84 && depth < 2:
 			var salt *uint64
@@ -357,6 +362,7 @@ func one(out *trace.W, r *rand.Rand, tid string, ntx int, stats map[string]int) 
 	}
 	nk := 4 + r.Intn(3)
 	g := &gen{r: r, u: u, nk: nk}
+	suicidal := false
 	for i := 0; i < nk; i++ {
 		u.add(fmt.Sprintf("k%d", i), kaddr(i))
 	}
@@ -383,6 +389,7 @@ func one(out *trace.W, r *rand.Rand, tid string, ntx int, stats map[string]int) 
 				}
 			}
 			gc.Code = pre.SelfDestruct(g.anyAddr()).Bytes()
+			suicidal = true
 		}
 		for s := 0; s < NSlots; s++ {
 			if r.Intn(2) == 0 {
@@ -390,6 +397,20 @@ func one(out *trace.W, r *rand.Rand, tid string, ntx int, stats map[string]int) 
 			}
 		}
 		co.Contracts = append(co.Contracts, gc)
+	}
+	if suicidal && r.Intn(2) == 0 {
+		// k0 pays the self-destructor twice in one transaction and records what it holds afterwards and what k0 has left
+		last := kaddr(nk - 1)
+		drv := asm.New().
+			Call(asm.CALL, last, asm.CallOpts{Value: uint64(1 + r.Intn(3)), Data: []byte{0}}).
+			Call(asm.CALL, last, asm.CallOpts{Value: uint64(1 + r.Intn(5)), Data: []byte{1}}).
+			PushA(last).Op(asm.BALANCE)
+		g.storeTop(drv)
+		drv.Op(0x47) // SELFBALANCE
+		g.storeTop(drv)
+		co.Contracts[0].Code = drv.Bytes()
+		co.Contracts[0].Bal = int64(20 + r.Intn(30))
+		stats["double-self-destruct-driver"]++
 	}
 	c := chain.New(co)
 	out.Emit(trace.M{"ev": "RefGenesis", "tid": tid, "baseFee": co.BaseFee})
